@@ -290,6 +290,7 @@ func (ex *Exec) doBuiltin(s *State, instr ssa.Instruction, b *ssa.Builtin, c *ss
 	case "append":
 		return ex.doAppend(s, instr, c, args)
 	case "delete":
+		ex.guardMapWrite(s, c.Args[0])
 		mt := c.Args[0].Type().Underlying().(*types.Map)
 		m := ex.asScalar(args[0])
 		k := ex.asScalar(args[1])
